@@ -132,36 +132,25 @@ pub fn walk_expr<'a>(e: &'a Expr, tail: bool, f: &mut dyn FnMut(Node<'a>)) {
     }
 }
 
-/// generous static test: could a constant folder know whether `e` is truthy without running it?
+/// generous static test: could a constant folder know the value (or at least the truthiness) of
+/// `e` without running it?  Deliberately over-approximates (a yes only costs a discarded case).
 pub fn truthiness_may_be_static(e: &Expr) -> bool {
     match e {
         Expr::Nil | Expr::True | Expr::False | Expr::Number { .. } | Expr::Str { .. } | Expr::Table(_) | Expr::Function { .. } | Expr::Interp(_) => true,
-        Expr::Paren(a) => truthiness_may_be_static(a),
-        Expr::Unary(UnOp::Not, a) => truthiness_may_be_static(a),
-        Expr::Unary(_, _) => true,
+        Expr::Paren(a) | Expr::Unary(_, a) => truthiness_may_be_static(a),
         Expr::Binary(op, a, b) => match op {
+            // `nil and f()` never evaluates f; `x or {}` is always truthy
             BinOp::And | BinOp::Or => truthiness_may_be_static(a) || truthiness_may_be_static(b),
+            // arithmetic and concatenation results are always truthy when they do not raise
             BinOp::Add | BinOp::Sub | BinOp::Mul | BinOp::Div | BinOp::IDiv | BinOp::Mod | BinOp::Pow | BinOp::Concat => true,
-            _ => literal_tree(a) && literal_tree(b),
+            _ => truthiness_may_be_static(a) && truthiness_may_be_static(b),
         },
         Expr::IfExpr { clauses, else_ } => clauses.iter().all(|c| truthiness_may_be_static(&c.1)) && truthiness_may_be_static(else_),
         Expr::Cast { expr, .. } => truthiness_may_be_static(expr),
-        _ => false,
-    }
-}
-
-/// built from literals and operators only; `math.<f>(literal trees)` counts as literal because
-/// convert_square_root_call turns `math.sqrt(x)` into `x ^ 0.5`, which a folder then evaluates
-fn literal_tree(e: &Expr) -> bool {
-    match e {
-        Expr::Nil | Expr::True | Expr::False | Expr::Number { .. } | Expr::Str { .. } => true,
-        Expr::Paren(a) | Expr::Unary(_, a) => literal_tree(a),
-        Expr::Binary(_, a, b) => literal_tree(a) && literal_tree(b),
+        // convert_square_root_call turns math.sqrt(x) into x ^ 0.5, which a folder then evaluates
         Expr::Call { f, args, .. } => {
-            matches!(&**f, Expr::Field { obj, .. } if matches!(&**obj, Expr::Name(n) if n == "math")) && args.iter().all(literal_tree)
+            matches!(&**f, Expr::Field { obj, .. } if matches!(&**obj, Expr::Name(n) if n == "math")) && args.iter().all(truthiness_may_be_static)
         }
-        Expr::Table(items) => items.is_empty(),
-        Expr::Cast { expr, .. } => literal_tree(expr),
         _ => false,
     }
 }
